@@ -19,7 +19,11 @@ RULE = ("schedules = one ceremony each: (n in 3..8, t in 2..n, V in 1..4) + the 
         "(barrier) / Round2 call, in every order the transport contract allows; generated (a) by TLC simulation of FrostGen "
         "(n<=5 quick, n<=6 thorough), (b) by a seeded generator of structured orders (lock-step, reversed, straggler, "
         "sprinter, eager, random; n up to 8, t up to n, V up to 4), (c) mode p2p: the same over the REAL frostP2P on "
-        "loopback libp2p hosts with real reliable broadcast (start order and hand-back order scheduled); executed on n "
+        "loopback libp2p hosts with real reliable broadcast (start order and hand-back order scheduled), (d) mode cb: the REAL "
+        "frostP2P + real bcast component on every node over a scheduled wire: every cast handed to the real bcast server handler "
+        "/ every share stream released to the real stream handler when the schedule says, plus RE-deliveries of batches already "
+        "received (TLC-generated with up to 4 re-deliveries, seeded, and the scripted shapes 'fast peer's round-2 cast, then its "
+        "round-1 cast again, while a slow peer's cast is outstanding' in both rounds for n=4,t=3,V=2); executed on n "
         "goroutines running the unmodified runFrostParallel; every ceremony ends with relations over all t-subsets (n<=6) or "
         "a seeded sample (n>6) and some (t-1)-subsets, computed with real tbls calls; distinct = distinct recorded traces")
 ASSUMPTIONS = [
@@ -31,6 +35,10 @@ ASSUMPTIONS = [
     "msgKey.TargetID, own cast self-delivered, a call is answered only when the schedule says so and the model's barrier holds); "
     "mode p2p: the real frostP2P over loopback TCP, deliveries are the network's, the model delivers eagerly (sound: results do "
     "not depend on the delivery order, checked by FrostMC with free order)",
+    "mode cb: casts are captured below the real bcast client (in-memory transport through the hooks VerifUseTransport / "
+    "VerifHandleSigRequest / VerifHandleMessage) and share batches are real loopback streams parked in front of the real handler; a "
+    "re-delivery is the identical, validly signed message handed to the same handler again (the bcast server does not drop those); the "
+    "spec's Redeliver changes nothing, i.e. a re-delivered message must never change what a node leaves a round with",
     "a 'fewer than t shares do not sign' relation is only demanded when the witness's joint polynomial has degree exactly t-1; "
     "which node's view a subset is evaluated in is the first listed member's",
     "all nodes are honest and the transport is reliable (C13 covers the broadcast layer against faulty members); design check "
@@ -44,7 +52,10 @@ ASSUMPTIONS = [
 CONTROLS = [("FrostMC_ctl_pskey0.cfg", "KeyedByShareIdx", "public shares keyed by SourceID-1 (share index = node index)"),
             ("FrostMC_ctl_valperm.cfg", "OwnShareMatches", "validator v handed the public shares of validator v+1"),
             ("FrostMC_ctl_tminus1.cfg", "ThresholdIsT", "FROST library given threshold t-1"),
-            ("FrostMC_ctl_nobarrier.cfg", "Agreement", "transport Round1 answered one cast early (barrier dropped)"),
+            ("FrostMC_ctl_nobarrier.cfg", "BarrierComplete", "transport Round1 answered one cast early (barrier dropped)"),
+            ("FrostMC_ctl_lastid.cfg", "CountsDistinct", "cast de-duplication by 'last accepted id per peer': a re-delivered cast is counted again"),
+            ("FrostMC_ctl_lastid_barrier.cfg", "RedeliveryNoEffect", "the same: a re-delivery changes a node's state"),
+            ("FrostMC_ctl_lastid_agree.cfg", "Agreement", "the same, end to end: a node leaves round 1 without a peer's cast and derives another group key"),
             ("FrostMC_ctl_mixvals.cfg", "GroupKeyIsSum", "getRound2Inputs ignores ValIdx (msgKey collision)")]
 PRIMES = [11, 13, 17, 31]
 
@@ -104,10 +115,12 @@ class Sim:
 STAGE = {"Start": 0, "D1C": 1, "D1P": 1, "Ret1": 2, "D2": 3, "Ret2": 4}
 
 
-def ceremony(r, n, t, nv, kind, seed):
+def ceremony(r, n, t, nv, kind, seed, mode="mem", rd=0.0):
+    """one ceremony; rd = probability of a re-delivery (of a batch already delivered) after each move"""
     p = r.choice([q for q in PRIMES if q > n])
     sim = Sim(n)
-    steps = [{"ev": "Cfg", "n": n, "t": t, "V": nv, "p": p, "mode": "mem", "seed": seed, "kind": kind}]
+    steps = [{"ev": "Cfg", "n": n, "t": t, "V": nv, "p": p, "mode": mode, "seed": seed, "kind": kind}]
+    delivered = []
     special = r.randint(1, n)
     perm = list(range(1, n + 1))
     r.shuffle(perm)
@@ -145,7 +158,78 @@ def ceremony(r, n, t, nv, kind, seed):
             steps.append({"ev": k, "j": j})
         else:
             steps.append({"ev": k, "i": i, "j": j})
+            delivered.append({"D1C": "c1", "D1P": "p1", "D2": "c2"}[k] + "/%d/%d" % (i, j))
+        while delivered and r.random() < rd:
+            kk, a, b = r.choice(delivered[-4:] if r.random() < 0.5 else delivered).split("/")
+            steps.append({"ev": "RD", "i": int(a), "j": int(b), "k": kk})
     return steps
+
+
+def scripted(n, t, nv, seed, p, moves, tag):
+    """a ceremony given as an explicit list of moves; every move must be enabled in the transport contract"""
+    r = vlib.rng(seed, "c11script" + tag)
+    sim = Sim(n)
+    steps = [{"ev": "Cfg", "n": n, "t": t, "V": nv, "p": p, "mode": "cb", "seed": seed, "kind": tag}]
+    for m in moves:
+        if m[0] == "RD":
+            steps.append({"ev": "RD", "i": m[1], "j": m[2], "k": m[3]})
+            continue
+        if m not in sim.enabled():
+            raise vlib.Infra("scripted schedule %s: move %s is not enabled" % (tag, m))
+        sim.apply(m)
+        k, i, j = m
+        if k == "Start":
+            steps.append({"ev": "Start", "i": i, "c": [[r.randrange(p) for _ in range(t)] for _ in range(nv)]})
+        elif k in ("Ret1", "Ret2"):
+            steps.append({"ev": k, "j": j})
+        else:
+            steps.append({"ev": k, "i": i, "j": j})
+    if sim.enabled() or any(ph != "done" for ph in sim.phase.values()):
+        raise vlib.Infra("scripted schedule %s does not complete the ceremony" % tag)
+    return steps
+
+
+def shape_round1(n, t, nv, seed, X, P, Q):
+    """X is still in round 1 (the cast of the slow Q outstanding); the fast P has finished round 1 and its round-2 cast
+    reaches X; then P's round-1 cast is delivered to X AGAIN; only then Q's round-1 cast arrives."""
+    N = list(range(1, n + 1))
+    mv = [("Start", i, 0) for i in N]
+    mv += [("D1C", i, j) for i in N for j in N if i != j and (i, j) != (Q, X)]
+    mv += [("D1P", i, j) for i in N for j in N if i != j]
+    mv += [("Ret1", 0, P), ("D2", P, X), ("RD", P, X, "c1"), ("D1C", Q, X)]
+    mv += [("Ret1", 0, j) for j in N if j != P]
+    mv += [("D2", i, j) for i in N for j in N if i != j and (i, j) != (P, X)]
+    mv += [("Ret2", 0, j) for j in N]
+    return scripted(n, t, nv, seed, 11, mv, "shape1_%d%d%d" % (X, P, Q))
+
+
+def shape_round2(n, t, nv, seed, X, P, Q):
+    """the same one round later: X waits for Q's round-2 cast; P's round-1 cast, then P's round-2 cast reach X again."""
+    N = list(range(1, n + 1))
+    mv = [("Start", i, 0) for i in N]
+    mv += [("D1C", i, j) for i in N for j in N if i != j]
+    mv += [("D1P", i, j) for i in N for j in N if i != j]
+    mv += [("Ret1", 0, j) for j in N]
+    mv += [("D2", i, j) for i in N for j in N if i != j and (i, j) != (Q, X)]
+    mv += [("RD", P, X, "c1"), ("RD", P, X, "c2"), ("D2", Q, X)]
+    mv += [("Ret2", 0, j) for j in N]
+    return scripted(n, t, nv, seed, 11, mv, "shape2_%d%d%d" % (X, P, Q))
+
+
+def cb_schedules(seed, thorough):
+    """mode cb: the REAL frostP2P on every node, deliveries and RE-deliveries of casts / share batches scheduled"""
+    r = vlib.rng(seed, "c11cb")
+    out = [shape_round1(4, 3, 2, seed, 1, 2, 3), shape_round2(4, 3, 2, seed, 1, 2, 3)]
+    trip = [(2, 3, 4), (4, 1, 2), (3, 4, 1), (1, 3, 2), (2, 1, 4), (4, 2, 3)]
+    for X, P, Q in (trip if thorough else [r.choice(trip)]):
+        out.append(shape_round1(4, 3, 2, seed, X, P, Q))
+        out.append(shape_round2(4, 3, 2, seed, X, P, Q))
+    out.append(shape_round1(3, 2, 1, seed, 3, 1, 2))
+    for k in range(60 if thorough else 8):
+        n = r.randint(3, 6 if thorough else 5)
+        out.append(ceremony(r, n, r.choice([2, n, r.randint(2, n)]), r.choice([1, 2, 3]), KINDS[k % len(KINDS)], seed,
+                            mode="cb", rd=r.choice([0.1, 0.25, 0.4])))
+    return out
 
 
 KINDS = ["random", "lockstep", "reverse", "eager", "straggler", "sprinter"]
@@ -192,11 +276,11 @@ def p2p_schedules(seed, count, nmax):
     return out
 
 
-def from_tlc(scheds, seed):
+def from_tlc(scheds, seed, mode="mem"):
     out = []
     for s in scheds:
         cfg = dict(s[0])
-        cfg.update({"mode": "mem", "seed": seed})
+        cfg.update({"mode": mode, "seed": seed})
         out.append([cfg] + list(s[1:]))
     return out
 
@@ -211,7 +295,7 @@ def full_schedules(seed, count):
 # ----------------------------------------------------------------------------------------------
 # binding negative controls
 # ----------------------------------------------------------------------------------------------
-def mutators():
+def mutators(cb=False):
     def find(t, ev):
         for i, e in enumerate(t):
             if e.get("ev") == ev:
@@ -299,6 +383,26 @@ def mutators():
             del t[i]
             return t
         return None
+    def rd_refused(t):
+        _, e = find(t, "RD")
+        if e:
+            e["ok"] = False
+            return t
+        return None
+
+    def rd_before_delivery(t):
+        # a "re-delivery" of a batch the node has not received yet is not a re-delivery
+        for i, e in enumerate(t):
+            if e.get("ev") == "RD":
+                first = {"c1": "D1C", "c2": "D2", "p1": "D1P"}[e["k"]]
+                for k in range(i):
+                    if t[k].get("ev") == first and t[k]["i"] == e["i"] and t[k]["j"] == e["j"]:
+                        t.insert(k, t.pop(i))
+                        return t
+        return None
+    if cb:
+        return [("re-delivery answered with an error", rd_refused), ("re-delivery before the first delivery", rd_before_delivery),
+                ("group keys differ between nodes", gk_differs), ("public shares keyed from 0", pskeys_shifted)]
     return [("group keys differ between nodes", gk_differs), ("own secret share does not match its public share", own_mismatch),
             ("a t-subset's aggregate does not verify", subset_fails), ("a t-subset's public shares do not recover the key", recover_fails),
             ("t-1 shares sign", below_signs), ("public shares keyed from 0", pskeys_shifted),
@@ -311,13 +415,15 @@ def run(tier, seed):
     o = vlib.Outcome(PID, tier, seed)
     thorough = tier == "thorough"
     # stage 0: design check + controls that MUST be violated
-    mcs = (["FrostMC.cfg", "FrostMC_t3.cfg", "FrostMC_order.cfg", "FrostMC_n4.cfg", "FrostMC_n4e.cfg", "FrostMC_n5.cfg"] if thorough
-           else ["FrostMC_quick.cfg", "FrostMC_order_quick.cfg"])
+    mcs = (["FrostMC.cfg", "FrostMC_t3.cfg", "FrostMC_order.cfg", "FrostMC_redel.cfg", "FrostMC_n4.cfg", "FrostMC_n4e.cfg",
+            "FrostMC_n5.cfg"] if thorough else ["FrostMC_quick.cfg", "FrostMC_order_quick.cfg", "FrostMC_redel_quick.cfg"])
     for cfg in mcs:
         r = vlib.tlc(PID, FAMILY, "FrostMC", cfg, timeout=1500)
         vlib.require_mc_ok(r, cfg)
         o.add_mc(cfg[:-4], r)
     for cfg, inv, what in CONTROLS:
+        if cfg == "FrostMC_ctl_lastid_agree.cfg" and not thorough:
+            continue            # 48k states: thorough tier only (the two other "lastid" controls run in both)
         r = vlib.tlc(PID, FAMILY, "FrostMC", cfg, workers=4, timeout=600)
         if r.violation != inv:
             raise vlib.Infra("design-spec control failed: '%s' not caught by %s: %s" % (what, inv, r.summary()))
@@ -328,11 +434,15 @@ def run(tier, seed):
     gen = from_tlc(g, seed)
     rnd = random_schedules(seed, 600 if thorough else 72, 60 if thorough else 6) + corner_schedules(seed)
     p2p = p2p_schedules(seed, 40 if thorough else 6, 8 if thorough else 5)
+    gcb, _ = vlib.gen_schedules(PID, FAMILY, "FrostGen", "FrostGen_cb.cfg", num=60 if thorough else 8, depth=250, seed=seed + 1000,
+                                limit=60 if thorough else 8)
+    cb = cb_schedules(seed, thorough) + from_tlc(gcb, seed, mode="cb")
     # stage 2+3
     kw = dict(chunk=40, exec_timeout=1500)
     vlib.conformance(o, FAMILY, "FrostTrace", "FrostTrace.cfg", PKG, gen, tag="tlcgen", **kw)
     vlib.conformance(o, FAMILY, "FrostTrace", "FrostTrace.cfg", PKG, rnd, tag="random", **kw)
     vlib.conformance(o, FAMILY, "FrostTrace", "FrostTrace.cfg", PKG, p2p, tag="p2p", **kw)
+    vlib.conformance(o, FAMILY, "FrostTrace", "FrostTrace.cfg", PKG, cb, tag="cb", **kw)
     if thorough:
         vlib.conformance(o, FAMILY, "FrostTrace", "FrostTrace.cfg", PKG, full_schedules(seed, 2), tag="full", **kw)
     # binding negative controls on recorded (accepted, complete) traces
@@ -342,7 +452,10 @@ def run(tier, seed):
         tr.sort(key=lambda t: (t[0]["V"] < 2, len(t)))
         nst = len(o.selftests)
         vlib.binding_selftest(o, FAMILY, "FrostTrace", "FrostTrace.cfg", tr, mutators())
-        if len(o.selftests) < nst + len(mutators()):
+        trc = [t for t in vlib.split_traces(vlib.read_ndjson(vlib.workdir(PID) + "/trace_cb.ndjson"))
+               if t and t[-1].get("ev") == "Check"]
+        vlib.binding_selftest(o, FAMILY, "FrostTrace", "FrostTrace.cfg", trc, mutators(cb=True))
+        if len(o.selftests) < nst + len(mutators()) + len(mutators(cb=True)):
             raise vlib.Infra("binding self-test: some negative control found no applicable trace")
     return vlib.finish(o, "exploration", RULE, ASSUMPTIONS)
 
